@@ -95,6 +95,9 @@ pub enum SocketMode {
     V6Only,
     /// only an IPv6 socket that also accepts IPv4 (sources appear IPv4-mapped)
     DualStackV6,
+    /// an IPv4 socket on 127.0.0.1 *and* a dual-stack IPv6 socket on [::]: IPv4 hosts that
+    /// address another local address (127.0.0.2) arrive at the IPv6 socket as IPv4-mapped sources
+    SplitV4AndDualStackV6,
 }
 
 pub fn udp_config(port: u16, mode: SocketMode, uring: bool, socket_workers: usize) -> aquatic_udp::config::Config {
@@ -111,6 +114,10 @@ pub fn udp_config(port: u16, mode: SocketMode, uring: bool, socket_workers: usiz
         SocketMode::V6Only => c.network.use_ipv4 = false,
         SocketMode::DualStackV6 => {
             c.network.use_ipv4 = false;
+            c.network.set_only_ipv6 = false;
+            c.network.address_ipv6 = SocketAddrV6::new(Ipv6Addr::UNSPECIFIED, port, 0, 0);
+        }
+        SocketMode::SplitV4AndDualStackV6 => {
             c.network.set_only_ipv6 = false;
             c.network.address_ipv6 = SocketAddrV6::new(Ipv6Addr::UNSPECIFIED, port, 0, 0);
         }
